@@ -216,8 +216,8 @@ class ValidationContext:
 
     def raise_or_collect(self, validation: str, error: XMLSchemaValidationError) \
             -> XMLSchemaValidationError:
-        if error.elem is None and self.elem is not None:
-            error.elem = self.elem
+        if error.elem is None and error.path is None and self.elem is not None:
+            error.elem = self.elem  # (lazy resources keep the path, not the element)
 
         if self.attribute is not None and error.reason is not None \
                 and not error.reason.startswith('attribute '):
